@@ -222,6 +222,14 @@ def no_oauth_scopes(a):
 
 
 @edit
+def several_oauth_scopes(a):
+    a.main.service.append(service('Scoped', [
+        method('GetBook', Q('GetBookRequest'), Q('Book'), http=('get', '/v1/scoped/{name=books/*}'))],
+        scopes=','.join('https://www.googleapis.com/auth/' + x for x in
+                        ('cloud-platform', 'acme', 'acme.readonly', 'acme.admin', 'zebra', 'books'))))
+
+
+@edit
 def api_version(a):
     a.main.service.append(service('Versioned', [
         method('GetBook', Q('GetBookRequest'), Q('Book'), http=('get', '/v1/versioned/{name=books/*}')),
@@ -538,7 +546,32 @@ def oneof_optional_signature(a):
                              field('limit', 5, 'int32', optional=True), field('note', 6, 'string', optional=True)],
                   oneofs=['selector']))
     a.rpc(method('Choose', Q('Choice'), Q('Book'), http=('post', '/v1/{name=shelves/*}:choose', '*'),
-                 sigs=['name,by_id', 'name,by_title,limit', 'by_book,note']))
+                 sigs=['name,by_id', 'name,by_title,limit', 'by_book,note']),
+          # one overload per alternative, listed in an order that differs from the field numbers
+          method('ChooseLatest', Q('Choice'), Q('Book'), http=('post', '/v1/{name=shelves/*}:chooseLatest', '*'),
+                 sigs=['name,by_title', 'name,by_id']))
+
+
+@edit
+def path_vars_same_parent(a):
+    """Two path variables that are sub-fields of the same message field (id-keyed resources)."""
+    a.msg(message('Volume', [field('shelf_id', 1, 'string'), field('volume_id', 2, 'string'), field('title', 3, 'string')]),
+          message('UpdateVolumeRequest', [field('volume', 1, Q('Volume')), field('force', 2, 'bool')]))
+    a.rpc(method('UpdateVolume', Q('UpdateVolumeRequest'), Q('Volume'),
+                 http=('patch', '/v1/shelves/{volume.shelf_id}/volumes/{volume.volume_id}', 'volume'), sigs=['volume']))
+
+
+@edit
+def several_oneofs(a):
+    """Request and response with three real oneofs each (and a proto3-optional field between them)."""
+    def fields():
+        return [field('name', 1, 'string'), field('by_id', 2, 'int64', oneof=0), field('by_title', 3, 'string', oneof=0),
+                field('as_text', 4, 'string', oneof=1), field('as_book', 5, Q('Book'), oneof=1),
+                field('note', 6, 'string', optional=True),
+                field('zeta', 7, 'bool', oneof=2), field('alpha', 8, 'string', oneof=2)]
+    a.msg(message('PickRequest', fields(), oneofs=['selector', 'format', 'extra']),
+          message('PickResponse', fields(), oneofs=['selector', 'format', 'extra']))
+    a.rpc(method('Pick', Q('PickRequest'), Q('PickResponse'), http=('post', '/v1/{name=shelves/*}:pick', '*')))
 
 
 @edit
